@@ -58,6 +58,10 @@ class Program:
     def sig(self):
         raise NotImplementedError
 
+    def cls(self):
+        """coarse defect class, first component of the violation signature (known findings match by prefix)"""
+        return self.family
+
     @property
     def guard(self):
         return "(1/0)" in self.text()
@@ -162,7 +166,7 @@ class Skeleton(Program):
         p = ""
         if self.prologue:
             p = ",".join(x.replace("#", "").replace(" ", "_") for x in self.prologue) + ";"
-        return "skeleton:" + (p + ";".join(r(b) for b in self.blocks)).replace(" ", "")
+        return (p + ";".join(r(b) for b in self.blocks)).replace(" ", "")
 
     def _clone(self):
         return Skeleton(self.prologue, [b.copy() for b in self.blocks])
@@ -382,7 +386,7 @@ LIT_FULL = ["0", "1", "2", "3", "31", "32", "63", "2147483647", "2147483648", "4
 LIT_D1Q = ["0", "1", "2", "31", "32", "63", "2147483647", "2147483648", "4294967296", "0x7fffffff", "0x80000000", "0xffffffff",
            "0xffffffffffffffff", "1u", "3ul", "defined(A)", "defined A", "(1/0)"]
 LIT_Q = ["0", "1", "2147483648", "0xffffffff"]
-LIT_QO = ["1", "0xffffffff"]
+LIT_QO = ["1", "0xffffffff", "1u"]
 LIT_T = ["0", "1", "3", "2147483648", "0xffffffff", "1u"]
 UNARY = ["-", "+", "!", "~"]
 BINARY = ["+", "-", "*", "/", "%", "<<", ">>", "<", "<=", ">", ">=", "==", "!=", "&", "|", "^", "&&", "||"]
@@ -460,8 +464,26 @@ class E:
         return E(*a)
 
 
+def _bool_typed(e):
+    """sub-expression whose OCCA value has type bool (comparison, logical operator, !)"""
+    a = e.a
+    return (a[0] == "bin" and OPCLASS[a[1]] in ("rel", "eq", "logic")) or (a[0] == "un" and a[1] == "!")
+
+
+def _bitop_on_bool(e):
+    a = e.a
+    if a[0] == "un" and a[1] == "~" and _bool_typed(a[2]):
+        return True
+    if a[0] == "bin" and a[1] in ("&", "|", "^") and (_bool_typed(a[2]) or _bool_typed(a[3])):
+        return True
+    return any(_bitop_on_bool(c) for c in e.children())
+
+
 class IfExpr(Program):
     family = "ifexpr"
+
+    def cls(self):
+        return "ifexpr-bitop-on-bool" if _bitop_on_bool(self.e) else "ifexpr"
 
     def __init__(self, e, a_defined=False):
         self.e, self.a_defined = e, a_defined
@@ -471,7 +493,7 @@ class IfExpr(Program):
         return pro + "#if " + self.e.text() + "\nt\n#else\nf\n#endif\n"
 
     def sig(self):
-        return "ifexpr:" + self.e.cls() + (";A=1" if self.a_defined else "")
+        return self.e.cls() + (";A=1" if self.a_defined else "")
 
     def reductions(self):
         out = []
@@ -626,8 +648,51 @@ def invocation_lines(defs):
     return out
 
 
+def _recursive(defs):
+    """some macro of the program can reach its own name through the replacement lists"""
+    names = {d.name for d in defs}
+    refs = {d.name: {t for t in re.findall(r"[A-Za-z_]\w*", d.body) if t in names} for d in defs}
+    for n in names:
+        seen, todo = set(), list(refs[n])
+        while todo:
+            x = todo.pop()
+            if x == n:
+                return True
+            if x not in seen:
+                seen.add(x)
+                todo.extend(refs[x])
+    return False
+
+
+def _empty_expansion_argument(defs, line):
+    """an object-like macro whose complete expansion is empty (empty replacement list, or only names of such macros) is
+    used inside parentheses - in the invocation line or in a replacement list, where it becomes an argument"""
+    empty = set()
+    changed = True
+    while changed:
+        changed = False
+        for d in defs:
+            if d.params is None and d.name not in empty:
+                toks = re.findall(r"\S+", d.body)
+                if all(t in empty for t in toks):
+                    empty.add(d.name)
+                    changed = True
+    if not empty:
+        return False
+    for text in [line] + [d.body for d in defs]:
+        for m in re.finditer(r"\((.*)\)", text):
+            if set(re.findall(r"[A-Za-z_]\w*", m.group(1))) & empty:
+                return True
+    return False
+
+
 class MacroProg(Program):
     family = "macro"
+
+    def cls(self):
+        if _empty_expansion_argument(self.defs, self.line):
+            return "macro-argument-expands-to-nothing"
+        return "macro-recursive" if _recursive(self.defs) else "macro"
 
     def __init__(self, defs, line, line_feat, undef=None, redefine=None):
         self.defs, self.line, self.line_feat, self.undef, self.redefine = list(defs), line, line_feat, undef, redefine
@@ -646,7 +711,7 @@ class MacroProg(Program):
         return False
 
     def sig(self):
-        s = "macro:" + ";".join(d.line().replace("#define ", "") for d in self.defs) + "|" + self.line
+        s = ";".join(d.line().replace("#define ", "") for d in self.defs) + "|" + self.line
         if self.undef:
             s += "|undef_" + self.undef + ("+redefine" if self.redefine else "")
         return s.replace(" ", "_")
